@@ -170,3 +170,59 @@ Example c01_nonvacuous :
   | _ => False
   end.
 Proof. exact demo_ok. Qed.
+
+(** * The two selections of RejectContracts, regenerated from the SQL
+
+   q_rejectContracts / q_rejectV2Contracts (gen/RejectQueries.v) are produced on every run by
+   tools/sqlgen (spec tools/sqlgen/c01.json) from the SQL text and the bound Go arguments of
+   rejectContracts / rejectV2Contracts in the repository's current persist/sqlite/consensus.go,
+   with SQLite's affinity rules (column types of init.sql, what database/sql binds for the Go
+   status constants) and three-valued logic (SqlSem.v).  [row_of_c1] / [row_of_c2] (SqlRows.v)
+   project a row of the model onto the columns the SQL reads. *)
+From HostdContracts Require Import SqlSem SqlRows RejectQueries GenEquiv.
+
+(* "counts as rejected once a processed height has exceeded ..." — the statement the store
+   executes selects exactly the contracts that are unconfirmed, not rejected yet, and negotiated
+   below the height it is given (the manager passes block height - buffer,
+   c01_batch_is_manager_order) *)
+Theorem c01_gen_reject_selects_exactly_unconfirmed_older_than : forall (c : c1) (h : N),
+  q_rejectContracts (row_of_c1 c) h = true <->
+  s1 c <> Rejected /\ formed c = false /\ neg1 c < h.
+Proof. exact gen_reject_v1_iff. Qed.
+Print Assumptions c01_gen_reject_selects_exactly_unconfirmed_older_than.
+
+Theorem c01_gen_reject_v2_selects_exactly_unconfirmed_older_than : forall (c : c2) (h : N),
+  q_rejectV2Contracts (row_of_c2 c) h = true <->
+  s2 c <> R2 /\ conf2 c = None /\ neg2 c < h.
+Proof. exact gen_reject_v2_iff. Qed.
+Print Assumptions c01_gen_reject_v2_selects_exactly_unconfirmed_older_than.
+
+(* the generated selections are, row by row, the conditions of the model the theorems above are
+   about, so RejectContracts with the generated selections IS the model's reject_contracts *)
+Theorem c01_gen_reject_is_model_selection : forall (h : N),
+  (forall c : c1, q_rejectContracts (row_of_c1 c) h = q_rej1 h c) /\
+  (forall c : c2, q_rejectV2Contracts (row_of_c2 c) h = q_rej2 h c).
+Proof. exact (fun h => conj (fun c => q_rejectContracts_model c h) (fun c => q_rejectV2Contracts_model c h)). Qed.
+Print Assumptions c01_gen_reject_is_model_selection.
+
+Theorem c01_gen_reject_contracts_is_model : forall (h : N) (s : state),
+  reject_contracts_gen h s = reject_contracts h s.
+Proof. exact reject_contracts_gen_eq. Qed.
+Print Assumptions c01_gen_reject_contracts_is_model.
+
+(* the height is bound as a signed 64-bit integer: both statements are executable below 2^63 *)
+Theorem c01_gen_reject_bindable : forall h : N,
+  q_rejectContracts_bindable h && q_rejectV2Contracts_bindable h = u64_bindable h.
+Proof. exact gen_reject_bindable. Qed.
+Print Assumptions c01_gen_reject_bindable.
+
+(* non-vacuity of the generated selections: at height 10 an unconfirmed pending contract
+   negotiated at 9 is selected; one negotiated at 10, a rejected one and a confirmed one are not *)
+Example c01_gen_nonvacuous :
+  map (fun c => q_rejectContracts (row_of_c1 c) 10)
+      [new1 1 9 0 0 uzero; new1 2 10 0 0 uzero; set_chain1 (new1 3 1 0 0 uzero) Rejected false None;
+       set_chain1 (new1 4 1 0 0 uzero) Active true None] = [true; false; false; false] /\
+  map (fun c => q_rejectV2Contracts (row_of_c2 c) 10)
+      [new2 1 9 0 0 uzero; new2 2 10 0 0 uzero; set_chain2 (new2 3 1 0 0 uzero) R2 None None;
+       set_chain2 (new2 4 1 0 0 uzero) A2 (Some (5, 7)) None] = [true; false; false; false].
+Proof. vm_compute. repeat split; reflexivity. Qed.
